@@ -436,7 +436,112 @@ fn ref_ts_of(uid: &str) -> Ts {
     }
 }
 
+
+// ---------------------------------------------------------------------------------------------
+// every reading configuration of the stateful decoder
+// ---------------------------------------------------------------------------------------------
+
+use dicom_object::collector::DicomCollector;
+use dicom_parser::dataset::lazy_read::LazyDataSetReader;
+use dicom_parser::dataset::read::{DataSetReader, DataSetReaderOptions, ValueReadStrategy};
+use dicom_parser::dataset::{DataToken, LazyDataToken};
+
+/// names of the read paths (all must switch character set at (0008,0005))
+const READERS: [&str; 8] = [
+    "object", "dsr-preserved", "dsr-interpreted", "dsr-raw", "lazy-owned-preserved", "lazy-owned-interpreted", "lazy-value", "collector",
+];
+
+fn es<E: std::fmt::Debug>(e: E) -> String {
+    format!("{e:?}").chars().take(200).collect()
+}
+
+/// value of element `tag` as delivered by one read path (None: element not seen)
+fn read_with(reader: &str, bytes: &[u8], ts_uid: &'static str, tag: Tag) -> Result<Option<PrimitiveValue>, String> {
+    let ts = ts_by_uid(ts_uid);
+    let dsr = |strategy: ValueReadStrategy| -> Result<Option<PrimitiveValue>, String> {
+        let r = DataSetReader::new_with_ts_options(bytes, ts, DataSetReaderOptions::default().value_read(strategy)).map_err(es)?;
+        let (mut want, mut found) = (false, None);
+        for tok in r {
+            match tok.map_err(es)? {
+                DataToken::ElementHeader(h) => want = h.tag == tag,
+                DataToken::PrimitiveValue(v) => {
+                    if want {
+                        found = Some(v);
+                    }
+                    want = false;
+                }
+                _ => {}
+            }
+        }
+        Ok(found)
+    };
+    let lazy = |strategy: Option<ValueReadStrategy>| -> Result<Option<PrimitiveValue>, String> {
+        let mut r = LazyDataSetReader::new_with_ts(std::io::Cursor::new(bytes), ts).map_err(es)?;
+        let (mut want, mut found) = (false, None);
+        while let Some(tok) = r.advance() {
+            let tok = tok.map_err(es)?;
+            match strategy {
+                Some(st) => match tok.into_owned_with_strategy(st).map_err(es)? {
+                    DataToken::ElementHeader(h) => want = h.tag == tag,
+                    DataToken::PrimitiveValue(v) => {
+                        if want {
+                            found = Some(v);
+                        }
+                        want = false;
+                    }
+                    _ => {}
+                },
+                None => match tok {
+                    LazyDataToken::ElementHeader(h) => want = h.tag == tag,
+                    t @ LazyDataToken::LazyValue { .. } => {
+                        let v = t.into_value().map_err(es)?;
+                        if want {
+                            found = Some(v);
+                        }
+                        want = false;
+                    }
+                    t => t.skip().map_err(es)?,
+                },
+            }
+        }
+        Ok(found)
+    };
+    let from_obj = |o: &InMemDicomObject| o.element(tag).ok().and_then(|e| e.value().primitive().cloned());
+    match reader {
+        "object" => InMemDicomObject::read_dataset_with_ts(bytes, ts).map(|o| from_obj(&o)).map_err(es),
+        "dsr-preserved" => dsr(ValueReadStrategy::Preserved),
+        "dsr-interpreted" => dsr(ValueReadStrategy::Interpreted),
+        "dsr-raw" => dsr(ValueReadStrategy::Raw),
+        "lazy-owned-preserved" => lazy(Some(ValueReadStrategy::Preserved)),
+        "lazy-owned-interpreted" => lazy(Some(ValueReadStrategy::Interpreted)),
+        "lazy-value" => lazy(None),
+        "collector" => {
+            let mut c = DicomCollector::new_with_ts(std::io::BufReader::new(std::io::Cursor::new(bytes)), ts_uid);
+            let mut o = InMemDicomObject::new_empty();
+            c.read_dataset_to_end(&mut o).map_err(es)?;
+            Ok(from_obj(&o))
+        }
+        _ => unreachable!(),
+    }
+}
+
+/// the strings of a text value, padding removed
+fn texts_of(v: &PrimitiveValue) -> Option<Vec<String>> {
+    match v {
+        PrimitiveValue::Str(s) => Some(vec![trim_pad(s).to_string()]),
+        PrimitiveValue::Strs(v) => Some(v.iter().map(|s| trim_pad(s).to_string()).collect()),
+        _ => None,
+    }
+}
+
+static TIMES: [std::sync::atomic::AtomicU64; 8] = [const { std::sync::atomic::AtomicU64::new(0) }; 8];
+
 struct DsCase {
+    /// how the Specific Character Set value is held: "str" (Str) or "strs1" (Strs with one term:
+    /// the other charset-switching arm of the encoder)
+    form: &'static str,
+    /// all 8 read paths, or (bulk cases of the thorough tier) object + dsr-interpreted + lazy-value
+    all_readers: bool,
     si: usize,
     vr: &'static str,
     shape: &'static str,
@@ -462,15 +567,19 @@ fn dataset_case(l: &mut Local, sets: &[Set], c: &DsCase) {
     let tagt = Tag(tag.0, tag.1);
     let cls = |stage: &str, kind: &str| {
         json!({"level": "dataset", "charset": set.term, "vr": c.vr, "ts": c.ts, "shape": c.shape, "repertoire": c.rep.s(),
-               "encoded_contains_5c": c.has5c, "value_ends_non_ascii": c.values.iter().any(|v| v.chars().last().map(|ch| ch as u32 >= 0x80).unwrap_or(false)),
-               "stage": stage, "kind": kind})
+               "charset_form": c.form, "encoded_contains_5c": c.has5c, "value_ends_non_ascii": c.values.iter().any(|v| v.chars().last().map(|ch| ch as u32 >= 0x80).unwrap_or(false)),
+               "stage": stage, "kind": kind, "reader": "-"})
     };
     let det = |m: String, wire: &[u8]| {
         json!({"values": c.values.iter().map(|s| s.chars().map(|ch| u(ch as u32)).collect::<Vec<_>>().join(" ")).collect::<Vec<_>>(),
                "stream": hex(&wire[..wire.len().min(96)]), "message": m})
     };
     let obj = InMemDicomObject::from_element_iter([
-        DataElement::new(CHARSET_TAG, VR::CS, Value::Primitive(PrimitiveValue::Str(set.term.to_string()))),
+        DataElement::new(
+            CHARSET_TAG,
+            VR::CS,
+            Value::Primitive(if c.form == "strs1" { PrimitiveValue::Strs([set.term.to_string()].into_iter().collect()) } else { PrimitiveValue::Str(set.term.to_string()) }),
+        ),
         DataElement::new(tagt, vr_of_str(c.vr), Value::Primitive(strs_value(&c.values))),
     ]);
     let ts = ts_by_uid(c.ts);
@@ -514,29 +623,53 @@ fn dataset_case(l: &mut Local, sets: &[Set], c: &DsCase) {
             }
         }
     }
-    let back = match guard(|| InMemDicomObject::read_dataset_with_ts(&out[..], ts)) {
-        Err(p) => {
-            l.outcome("dataset/read-panic");
-            l.fail(&c.id, cls("read", "panic"), det(p, &out));
-            return;
+    for (ri, reader) in READERS.iter().enumerate() {
+        if !c.all_readers && !matches!(*reader, "object" | "dsr-interpreted" | "lazy-value") {
+            continue;
         }
-        Ok(Err(e)) => {
-            l.outcome("dataset/read-err");
-            l.fail(&c.id, cls("read", "read-err"), det(format!("{e:?}").chars().take(200).collect(), &out));
-            return;
+        if ri > 0 {
+            l.eval();
+            l.nontrivial_distinct_by_construction(1);
         }
-        Ok(Ok(o)) => o,
-    };
-    let got: Option<Vec<String>> = back.element(tagt).ok().and_then(|e| match e.value() {
-        Value::Primitive(PrimitiveValue::Str(s)) => Some(vec![trim_pad(s).to_string()]),
-        Value::Primitive(PrimitiveValue::Strs(v)) => Some(v.iter().map(|s| trim_pad(s).to_string()).collect()),
-        _ => None,
-    });
-    if got.as_ref() == Some(&c.values) {
-        l.outcome_with("dataset/readback-equal", || json!({"case": c.id, "stream": hex(&out[..out.len().min(64)])}));
-    } else {
-        l.outcome("dataset/readback-differs");
-        l.fail(&c.id, cls("readback", "readback-differs"), det(format!("read back {got:?}"), &out));
+        let rcls = |stage: &str, kind: &str| {
+            let mut v = cls(stage, kind);
+            v["reader"] = json!(reader);
+            v
+        };
+        let t0 = std::time::Instant::now();
+        let res = guard(|| read_with(reader, &out, c.ts, tagt));
+        TIMES[ri].fetch_add(t0.elapsed().as_nanos() as u64, std::sync::atomic::Ordering::Relaxed);
+        let v = match res {
+            Err(p) => {
+                l.outcome("dataset/read-panic");
+                l.fail(&c.id, rcls("read", "panic"), det(p, &out));
+                continue;
+            }
+            Ok(Err(e)) => {
+                l.outcome("dataset/read-err");
+                l.fail(&c.id, rcls("read", "read-err"), det(e, &out));
+                continue;
+            }
+            Ok(Ok(v)) => v,
+        };
+        let (equal, shown) = match (&v, *reader) {
+            (Some(PrimitiveValue::U8(b)), "dsr-raw") => {
+                // raw bytes: judged by the independent decoder (padding is not part of the value)
+                let dec = |x: &[u8]| matches!(set.enc.decode(x, DecoderTrap::Strict), Ok(d) if trim_pad(&d) == joined);
+                (dec(b) || (b.last() == Some(&0x20) && dec(&b[..b.len() - 1])), format!("raw {}", hex(b)))
+            }
+            (Some(p), _) => {
+                let t = texts_of(p);
+                (t.as_ref() == Some(&c.values), format!("{t:?}"))
+            }
+            (None, _) => (false, "element not delivered".to_string()),
+        };
+        if equal {
+            l.outcome_with(&format!("dataset/readback-equal/{reader}"), || json!({"case": c.id, "stream": hex(&out[..out.len().min(64)])}));
+        } else {
+            l.outcome(&format!("dataset/readback-differs/{reader}"));
+            l.fail(&c.id, rcls("readback", "readback-differs"), det(format!("{reader} read back {shown}"), &out));
+        }
     }
 }
 
@@ -559,28 +692,60 @@ fn restricted_case(l: &mut Local, set: &Set, vr: &'static str, val: &str, ts_uid
         let (mut a, mut b) = (vec![], vec![]);
         with.write_dataset_with_ts(&mut a, ts).map_err(|e| format!("{e:?}"))?;
         without.write_dataset_with_ts(&mut b, ts).map_err(|e| format!("{e:?}"))?;
-        let back = InMemDicomObject::read_dataset_with_ts(&a[..], ts).map_err(|e| format!("{e:?}"))?;
-        let got = back.element(tagt).map_err(|e| format!("{e:?}"))?.to_str().map_err(|e| format!("{e:?}"))?.to_string();
-        Ok::<_, String>((a, b, got))
+        Ok::<_, String>((a, b))
     });
-    match r {
+    let (a, b) = match r {
         Err(p) => {
             l.outcome("restricted/panic");
             l.fail(&id, cls("panic"), json!({"message": p}));
+            return;
         }
         Ok(Err(e)) => {
             l.outcome("restricted/err");
             l.fail(&id, cls("err"), json!({"message": e.chars().take(200).collect::<String>()}));
+            return;
         }
-        Ok(Ok((a, b, got))) => {
-            if !a.ends_with(&b) {
-                l.outcome("restricted/bytes-differ");
-                l.fail(&id, cls("bytes-differ"), json!({"with_charset": hex(&a), "default": hex(&b)}));
-            } else if got != val {
-                l.outcome("restricted/readback-differs");
-                l.fail(&id, cls("readback-differs"), json!({"read": got, "written": val}));
-            } else {
-                l.outcome_with("restricted/unaffected", || json!({"case": id}));
+        Ok(Ok(x)) => x,
+    };
+    if !a.ends_with(&b) {
+        l.outcome("restricted/bytes-differ");
+        l.fail(&id, cls("bytes-differ"), json!({"with_charset": hex(&a), "default": hex(&b)}));
+        return;
+    }
+    for (ri, reader) in READERS.iter().enumerate() {
+        if ri > 0 {
+            l.eval();
+            l.nontrivial_distinct_by_construction(1);
+        }
+        let rcls = |kind: &str| {
+            let mut v = cls(kind);
+            v["reader"] = json!(reader);
+            v
+        };
+        match guard(|| read_with(reader, &a, ts_uid, tagt)) {
+            Err(p) => {
+                l.outcome("restricted/panic");
+                l.fail(&id, rcls("panic"), json!({"message": p}));
+            }
+            Ok(Err(e)) => {
+                l.outcome("restricted/err");
+                l.fail(&id, rcls("err"), json!({"message": e}));
+            }
+            Ok(Ok(v)) => {
+                let got: Option<String> = match &v {
+                    Some(PrimitiveValue::U8(bytes)) if *reader == "dsr-raw" => {
+                        Some(String::from_utf8_lossy(bytes).trim_end_matches([' ', '\0']).to_string())
+                    }
+                    // typed dates/times/numbers: their encoded (DICOM text) form
+                    Some(p) => Some(p.to_multi_str().join("\\").trim_end_matches([' ', '\0']).to_string()),
+                    None => None,
+                };
+                if got.as_deref() == Some(val) {
+                    l.outcome_with("restricted/unaffected", || json!({"case": id}));
+                } else {
+                    l.outcome("restricted/readback-differs");
+                    l.fail(&id, rcls("readback-differs"), json!({"read": format!("{got:?}"), "written": val}));
+                }
             }
         }
     }
@@ -604,11 +769,19 @@ fn ranges(cps: impl Iterator<Item = u32>, cap: usize) -> (u64, Vec<String>) {
     (n, v)
 }
 
+fn phase(t: &std::time::Instant, name: &str) {
+    if std::env::var("VX_TIMING").is_ok() {
+        eprintln!("phase {name} done at {:.1}s", t.elapsed().as_secs_f64());
+    }
+}
+
 fn main() {
     let check = Check::from_args("C10", Level::Exploration);
-    check.set_rule("codec level: 16 defined terms x every Unicode scalar value (quick: every scalar <= U+FFFF plus the first two and last two code points of each supplementary plane plus U+1F600, U+20000, U+2A6D6, U+E0001) as a one-character string through SpecificCharacterSet::{encode, decode}, judged per class must / must-not / may built from two independent repertoires (Python codec bitmaps; byte-sequence enumeration of the encoding crate's decoder); all strings of length <= 3 over a per-set representative alphabet (A, space, ^, =, ends of the first/last/three largest contiguous repertoire blocks, one character whose encoding contains 5C, one containing 1B); from_code(name) identity for the 16 terms. Data-set level: after a leading (0008,0005), for LO SH PN UC (single, embedded, two-valued, two-valued embedded) and LT ST UT (single, embedded, with a backslash) every must / faithfully-accepted may character whose encoding contains one of 5C 1B 00 20 5E 3D (for ISO_IR 87: 5C 5E 3D in the JIS code bytes) plus the alphabet, x {Implicit, Explicit VR LE} (thorough: + Explicit BE and every must character in LO and PN): the wire bytes decode to the text under the declared set by the independent decoder and the text reads back unchanged; restricted VRs (CS AE UI DA IS AS DS TM DT) are byte-identical to the default encoding and read back unchanged. A case is (level, term, scalar / string index / vr+shape+ts); distinct by construction");
+    check.set_rule("codec level: 16 defined terms x every Unicode scalar value (quick: every scalar <= U+FFFF plus the first two and last two code points of each supplementary plane plus U+1F600, U+20000, U+2A6D6, U+E0001) as a one-character string through SpecificCharacterSet::{encode, decode}, judged per class must / must-not / may built from two independent repertoires (Python codec bitmaps; byte-sequence enumeration of the encoding crate's decoder); all strings of length <= 3 over a per-set representative alphabet (A, space, ^, =, ends of the first/last/three largest contiguous repertoire blocks, one character whose encoding contains 5C, one containing 1B); from_code(name) identity for the 16 terms. Data-set level: after a leading (0008,0005), for LO SH PN UC (single, embedded, two-valued, two-valued embedded) and LT ST UT (single, embedded, with a backslash) every must / faithfully-accepted may character whose encoding contains one of 5C 1B 00 20 5E 3D (for ISO_IR 87: 5C 5E 3D in the JIS code bytes) plus the alphabet, x {Implicit, Explicit VR LE} (thorough: + Explicit BE and every must character in LO and PN): the wire bytes decode to the text under the declared set by the independent decoder and the text reads back unchanged through every read path (InMemDicomObject, DataSetReader with ValueReadStrategy Preserved / Interpreted / Raw (raw bytes judged by the independent decoder), LazyDataSetReader with into_owned Preserved / Interpreted and into_value, DicomCollector; the bulk thorough cases use object + Interpreted + lazy into_value), with the Specific Character Set value held as Str and (LO, LT) as a one-term Strs; restricted VRs (CS AE UI DA IS AS DS TM DT) are byte-identical to the default encoding and read back unchanged through the same 8 read paths. A case is (level, term, scalar / string index / vr+shape+ts); distinct by construction");
     check.assume("Python's codecs (ref/charset_tables.py, term -> codec from PS3.3 C.12.1.1.2) and the encoding crate's decoders (term -> codec from the module documentation of encoding/src/text.rs) are the two independent repertoire sources; only scalars on which both agree are in the must and must-not classes; vx-ref parser locates the value bytes");
+    let t_start = std::time::Instant::now();
     let sets = load_sets(&check);
+    phase(&t_start, "tables");
     // repertoire statistics and the disagreement list
     let mut stats = serde_json::Map::new();
     for s in &sets {
@@ -653,6 +826,7 @@ fn main() {
         }
     }
 
+    phase(&t_start, "stats+terms");
     // codec level; collect per set the scalars that were accepted faithfully (for the data-set level)
     let sc = scalars(&check);
     check.extra("scalars_per_set", json!(sc.len()));
@@ -672,6 +846,7 @@ fn main() {
         accepted[si].lock().unwrap().extend(acc);
     });
 
+    phase(&t_start, "codec");
     // strings over the representative alphabets
     let alphabets: Vec<Vec<char>> = sets.iter().map(alphabet).collect();
     check.extra("alphabets", json!(sets.iter().zip(&alphabets).map(|(s, a)| (s.term.to_string(), json!(a.iter().map(|c| u(*c as u32)).collect::<Vec<_>>()))).collect::<serde_json::Map<_, _>>()));
@@ -688,17 +863,25 @@ fn main() {
         }
     });
 
+    phase(&t_start, "strings");
     // data-set level
     let tss: Vec<&'static str> = if check.thorough() { vec![TS4[0], TS4[1], TS4[2]] } else { vec![TS4[0], TS4[1]] };
     let special: [u8; 6] = [0x5C, 0x1B, 0x00, 0x20, 0x5E, 0x3D];
-    let mut cases: Vec<DsCase> = vec![];
-    for (si, set) in sets.iter().enumerate() {
+    // (generated per set in parallel; the order of cases is fixed by the set index afterwards)
+    let per_set: Vec<std::sync::Mutex<Vec<DsCase>>> = sets.iter().map(|_| std::sync::Mutex::new(vec![])).collect();
+    let thorough = check.thorough();
+    check.par_range(sets.len() as u64, |_l, si| {
+        let si = si as usize;
+        let set = &sets[si];
+        let mut cases: Vec<DsCase> = vec![];
         let mut acc = accepted[si].lock().unwrap().clone();
         acc.sort();
         let mut chars: BTreeSet<u32> = BTreeSet::new();
+        // in the single-byte sets and in UTF-8 every byte of a non-ASCII character is >= 80
+        let can_have_special = !matches!(set.family, Family::Single | Family::Utf8);
         for cp in &acc {
             // structural characters of a DICOM text value are not value content
-            if *cp < 0x80 {
+            if *cp < 0x80 || !can_have_special {
                 continue;
             }
             let c = char::from_u32(*cp).unwrap();
@@ -718,8 +901,8 @@ fn main() {
                 chars.insert(*c as u32);
             }
         }
-        let thorough_all: Vec<u32> = if check.thorough() { acc.iter().copied().filter(|cp| *cp >= 0x80 && set.class(*cp) == Rep::Must).collect() } else { vec![] };
-        let mk = |cp: u32, vr: &'static str, shape: &'static str, ts: &'static str, cases: &mut Vec<DsCase>| {
+        let thorough_all: Vec<u32> = if thorough { acc.iter().copied().filter(|cp| *cp >= 0x80 && set.class(*cp) == Rep::Must).collect() } else { vec![] };
+        let mk = |cp: u32, vr: &'static str, shape: &'static str, ts: &'static str, all_readers: bool, cases: &mut Vec<DsCase>| {
             let c = char::from_u32(cp).unwrap();
             let values: Vec<String> = match shape {
                 "single" => vec![c.to_string()],
@@ -731,18 +914,22 @@ fn main() {
             };
             let has5c = set.ref_bytes(c).map(|b| b.contains(&0x5C)).unwrap_or(false);
             let id = format!("dataset/{}/{}/{vr}/{shape}/{ts}", set.term, u(cp));
-            cases.push(DsCase { si, vr, shape, values, rep: set.class(cp), has5c, ts, id });
+            // the second form of the charset element (other encoder arm): LO and LT, explicit VR LE only
+            if ts == TS4[1] && matches!(vr, "LO" | "LT") && matches!(shape, "single" | "two" | "with-backslash") {
+                cases.push(DsCase { form: "strs1", all_readers, si, vr, shape, values: values.clone(), rep: set.class(cp), has5c, ts, id: format!("{id}/strs1") });
+            }
+            cases.push(DsCase { form: "str", all_readers, si, vr, shape, values, rep: set.class(cp), has5c, ts, id });
         };
         for cp in &chars {
             for ts in &tss {
                 for vr in MULTI_VRS {
                     for shape in ["single", "embedded", "two", "two-embedded"] {
-                        mk(*cp, vr, shape, ts, &mut cases);
+                        mk(*cp, vr, shape, ts, true, &mut cases);
                     }
                 }
                 for vr in TEXT_VRS {
                     for shape in ["single", "embedded", "with-backslash"] {
-                        mk(*cp, vr, shape, ts, &mut cases);
+                        mk(*cp, vr, shape, ts, true, &mut cases);
                     }
                 }
             }
@@ -753,14 +940,19 @@ fn main() {
             }
             for vr in ["LO", "PN"] {
                 for shape in ["single", "two"] {
-                    mk(cp, vr, shape, TS4[1], &mut cases);
+                    mk(cp, vr, shape, TS4[1], false, &mut cases);
                 }
             }
         }
-    }
+        *per_set[si].lock().unwrap() = cases;
+    });
+    let cases: Vec<DsCase> = per_set.into_iter().flat_map(|m| m.into_inner().unwrap()).collect();
+    phase(&t_start, "dataset-gen");
     check.extra("dataset_cases", json!(cases.len()));
     check.par_range(cases.len() as u64, |l, i| dataset_case(l, &sets, &cases[i as usize]));
 
+    phase(&t_start, "dataset-run");
+    check.extra("reader_cpu_seconds", json!(READERS.iter().zip(TIMES.iter()).map(|(r, t)| (r.to_string(), json!(t.load(std::sync::atomic::Ordering::Relaxed) as f64 / 1e9))).collect::<serde_json::Map<_, _>>()));
     // restricted VRs
     let restricted: [(&'static str, &str); 9] =
         [("CS", "AB"), ("AE", "AET"), ("UI", "1.2.3"), ("DA", "20200101"), ("IS", "12"), ("AS", "012Y"), ("DS", "1.5"), ("TM", "1230"), ("DT", "2020")];
